@@ -628,3 +628,27 @@ Proof.
   split; [intros q c; apply hill_quaternion_sign | intros cut vac P c0 kc x n m HP; apply opes_kernel_images; exact HP].
 Qed.
 Print Assumptions C18_hill_and_kernel_see_equivalent_values.
+
+(* ---- on the manifolds (distanceDir: unit vectors; orientation: quaternions): along every differentiable curve through the value
+   (tangent for quaternions) the derivative of the harmonic restraint energy is minus <restraint force, velocity>, away from the
+   singular geometries ---- *)
+Theorem C18_restraint_force_is_minus_energy_derivative_on_manifolds : forall k w : R,
+  (forall a b q c,
+     hr_energy Rops PI k w KUnit (V3 a) (V3 b) = Some (1 / 2 * k / (w * w) * uv_dist2 Rops a b) /\
+     hr_force Rops PI k w KUnit (V3 a) (V3 b) = Some (V3 (v3scale Rops (- (1 / 2) * k / (w * w)) (uv_grad Rops a b))) /\
+     hr_energy Rops PI k w KQuat (VQ q) (VQ c) = Some (1 / 2 * k / (w * w) * q_dist2 Rops PI q c) /\
+     hr_force Rops PI k w KQuat (VQ q) (VQ c) = Some (VQ (qscale Rops (- (1 / 2) * k / (w * w)) (q_grad Rops PI q c)))) /\
+  (forall (x y z : R -> R) (ex ey ez : R) (c : vec3),
+     is_derive x 0 ex -> is_derive y 0 ey -> is_derive z 0 ez -> uv_nonsingular (x 0, y 0, z 0) c ->
+     is_derive (fun t => 1 / 2 * k / (w * w) * uv_dist2 Rops (x t, y t, z t) c) 0
+               (- v3dot Rops (v3scale Rops (- (1 / 2) * k / (w * w)) (uv_grad Rops (x 0, y 0, z 0) c)) (ex, ey, ez))) /\
+  (forall (a0 a1 a2 a3 : R -> R) (e0 e1 e2 e3 : R) (c : quat),
+     is_derive a0 0 e0 -> is_derive a1 0 e1 -> is_derive a2 0 e2 -> is_derive a3 0 e3 ->
+     qdot Rops (a0 0, a1 0, a2 0, a3 0) (e0, e1, e2, e3) = 0 -> q_nonsingular (a0 0, a1 0, a2 0, a3 0) c ->
+     is_derive (fun t => 1 / 2 * k / (w * w) * q_dist2 Rops PI (a0 t, a1 t, a2 t, a3 t) c) 0
+               (- qdot Rops (qscale Rops (- (1 / 2) * k / (w * w)) (q_grad Rops PI (a0 0, a1 0, a2 0, a3 0) c)) (e0, e1, e2, e3))).
+Proof.
+  intros k w. split; [intros a b q c; apply hr_manifold_unfold|].
+  split; [exact (hr_unit_force_curve k w) | exact (hr_quat_force_curve k w)].
+Qed.
+Print Assumptions C18_restraint_force_is_minus_energy_derivative_on_manifolds.
